@@ -15,7 +15,7 @@ impl Parser for Include {
         map(
             tuple((
                 tag("include"),
-                blank,
+                opt(blank),
                 Literal::parse,
                 opt(blank),
                 opt(list_separator),
@@ -30,7 +30,7 @@ impl Parser for CppInclude {
         map(
             tuple((
                 tag("cpp_include"),
-                blank,
+                opt(blank),
                 Literal::parse,
                 opt(blank),
                 opt(list_separator),
